@@ -6,8 +6,8 @@
    design/C04.md lists coverage and the disagreements found. *)
 From Coq Require Import ZArith List Bool String.
 From NQ Require Import Exec.State Exec.Sem Exec.SemQ Proofs.ExecProofs Proofs.SemQProofs.
-From NQ Require Lang.Asm Lang.AsmSem Proofs.AsmProofs Nv.Transpile Sdk.Target Sdk.EprBuild.
-From NQ Require Proofs.Bridge_Asm Proofs.Bridge_AsmChain Proofs.Bridge_Nv Proofs.Bridge_Sdk Proofs.Bridge_Epr.
+From NQ Require Lang.Asm Lang.AsmSem Lang.AsmSemQ Proofs.AsmProofs Proofs.AsmQProofs Nv.Transpile Sdk.Target Sdk.EprBuild.
+From NQ Require Proofs.Bridge_Asm Proofs.Bridge_AsmChain Proofs.Bridge_Nv Proofs.Bridge_Sdk Proofs.Bridge_Epr Proofs.Bridge_AsmQ.
 Import ListNotations.
 Open Scope Z_scope.
 
@@ -73,6 +73,52 @@ Proof.
   eexists. split; [vm_compute; reflexivity|]. split.
   - apply (defined_from_by_run _ _ 0 50). vm_compute. reflexivity.
   - split; [apply Bridge_Asm.srel_init|]. vm_compute. repeat split; reflexivity.
+Qed.
+
+(* ------------------------------------------------------------------ C03 with events: Lang/AsmSemQ.v
+   FULL on the fragment: the 19 classical instructions, qalloc / qfree (unit module with
+   capacity, the executor's faults), meas (scripted outcome) and the gate-like
+   instructions of AsmSemQ.gate_table (init, x y z h s k t, rot_*, cnot cphase mov,
+   crot_*, create_epr, recv_epr as opaque events), in assembled form; every program,
+   related states (Bridge_AsmQ.qrel: classical state, unit module, script, trace event
+   for event, consistent physical-qubit bookkeeping), pc, number of steps; inside the
+   defined domain of SemQ.  No extra hypotheses: AsmSemQ keeps the capacity and the
+   allocation faults (the disagreements D-NV-1 / D-SDK-1 do not arise), and like the
+   base executor it does not check that a gate's qubit is allocated. *)
+Theorem C04B_asmq_bridge : forall n T p a s k,
+  Bridge_AsmQ.e_qprog T = Some p -> Bridge_AsmQ.qrel a s -> qdefined_from p s (Z.of_nat k) ->
+  Bridge_AsmQ.qcfg_bridge (List.length T) (AsmSemQ.arun_q T n (AsmSemQ.QRun k a)) (qrun_from p s (Z.of_nat k) n).
+Proof. exact Bridge_AsmQ.asmq_bridge_from. Qed.
+
+Theorem C04B_asmq_instr : forall mn ops qi qa s pc,
+  Bridge_AsmQ.e_qins mn ops = Some qi -> Bridge_AsmQ.qrel qa s -> qstep qi s pc <> QStop (Unspec pc) ->
+  Bridge_AsmQ.qstep_bridge pc (AsmSemQ.exec_q mn ops qa) (qstep qi s pc).
+Proof. exact Bridge_AsmQ.qins_bridge. Qed.
+
+(* C03's example (qalloc, init, a measure-until-1 loop with a rotation, qfree, ret_reg),
+   assembled: in the fragment, inside the domain, both runs halt, traces correspond *)
+Example C04B_asmq_nonvacuous :
+  match Asm.assemble_ir AsmQProofs.exq_params AsmQProofs.exq_prog with
+  | Asm.AOk T =>
+      exists p, Bridge_AsmQ.e_qprog T = Some p /\
+        qdefined_domain p (mkQ (init_state 2) [0; 1] []) /\
+        Bridge_AsmQ.qrel (AsmSemQ.init_qstate 2 [0; 1]) (mkQ (init_state 2) [0; 1] []) /\
+        match AsmSemQ.arun_q T 30 (AsmSemQ.QRun 0 (AsmSemQ.init_qstate 2 [0; 1])), qrun p (mkQ (init_state 2) [0; 1] []) 30 with
+        | AsmSemQ.QHalted a, (s, _, Halt) =>
+            q_trace s = map Bridge_AsmQ.e_aev (AsmSemQ.qa_trace a) /\ List.length (q_trace s) = 8%nat /\
+            um (q_st s) = [None; None] /\ used (q_st s) = []
+        | _, _ => False
+        end
+  | Asm.AErr _ => False
+  end.
+Proof.
+  destruct (Asm.assemble_ir AsmQProofs.exq_params AsmQProofs.exq_prog) as [T|] eqn:E;
+    [|vm_compute in E; discriminate].
+  vm_compute in E. inversion E; subst T. clear E.
+  eexists. split; [vm_compute; reflexivity|]. split.
+  - apply SemQProofs.qdefined_is_qsafe.
+    apply (qsafe_by_run is_unspec _ _ 0 30); [reflexivity|vm_compute; discriminate|vm_compute; reflexivity].
+  - split; [apply Bridge_AsmQ.qrel_init|]. vm_compute. repeat split; reflexivity.
 Qed.
 
 (* ------------------------------------------------------------------ C08: Nv/Transpile.v
@@ -221,6 +267,7 @@ Qed.
 Print Assumptions C04B_semq_conservative.
 Print Assumptions C04B_asm_bridge.
 Print Assumptions C04B_source_to_sem.
+Print Assumptions C04B_asmq_bridge.
 Print Assumptions C04B_nv_bridge.
 Print Assumptions C04B_sdk_instr_partial.
 Print Assumptions C04B_sdk_cond.
